@@ -109,7 +109,7 @@ class Run:
             code = 1 if code == 0 else code
         if self.violations and code == 2:
             code = 1  # a found violation is a violation even if another part of the analysis gave up
-        if self.only is None:
+        if self.only is None and not getattr(self, "no_evidence", False):
             self.write_evidence(wall, n_inst, n_ok)
         status = {0: "HOLDS", 1: "VIOLATED", 2: "UNDECIDED"}[code]
         print("%s %s tier=%s instances=%d ok=%d violations=%d known=%d wall=%.2fs" % (
